@@ -21,7 +21,7 @@ CONSTANTS
  ExtDeletes = FALSE
  NodeDowns = FALSE
  Rejects = FALSE
- Holds = FALSE Invalids = FALSE
+ Holds = FALSE Invalids = FALSE WatchBreaks = FALSE
 INVARIANTS TypeOK C08_OneLive C09_NotLost C09_NoForeignAdopt C10_SuccOnly C10_FailOnly G_Kill G_Reaches G_Listed G_Deleted G_Foreign
 PROPERTIES C08_Order C08_Delay C08_Gates C09_Keep C10_NoLiveAtFinish C11_Monotone C12_DeleteJustified C12_ForceGate C12_KillSticky C13_Order C13_TTLNotEarly
 CHECK_DEADLOCK FALSE
